@@ -99,7 +99,7 @@ func main() {
 		for _, spec := range strings.Split(ap, ",") {
 			fn := p.Func(spec)
 			fmt.Printf("fn %s\n", spec)
-			gs := p.FA(fn).Guards()
+			gs := p.FA(fn).OwnGuards()
 			sort.Slice(gs, func(i, j int) bool { return gs[i].If.Block().Index < gs[j].If.Block().Index })
 			seen := map[int]bool{}
 			for _, g := range gs {
@@ -126,7 +126,7 @@ func main() {
 		for _, spec := range strings.Split(*guards, ",") {
 			fn := p.Func(spec)
 			fmt.Printf("## %s (%s)\n", spec, p.Pos(fn.Pos()))
-			gs := p.FA(fn).Guards()
+			gs := p.FA(fn).OwnGuards()
 			sort.Slice(gs, func(i, j int) bool { return gs[i].If.Block().Index < gs[j].If.Block().Index })
 			for _, g := range gs {
 				pos := g.If.Cond.Pos()
@@ -229,7 +229,7 @@ func dumpFunc(p *Program, fn *ssa.Function, callFilter string) {
 	}
 	a := p.FA(fn)
 	fmt.Println("-- guards:")
-	for _, g := range a.Guards() {
+	for _, g := range a.OwnGuards() {
 		fmt.Printf("  %s   @%s\n", g.String(), p.Pos(g.If.Cond.Pos()))
 	}
 	fmt.Println("-- calls:")
